@@ -43,10 +43,13 @@ def main():
     dest = os.path.join(VERIF, "seeded", name)
     os.makedirs(dest, exist_ok=True)
     for fn in os.listdir(out):
-        if fn.endswith((".diff", ".rs", ".md", ".sh", ".txt")):
-            shutil.copy(os.path.join(out, fn), os.path.join(dest, fn))
+        src = os.path.join(out, fn)
+        if os.path.isdir(src):
+            shutil.copytree(src, os.path.join(dest, fn), dirs_exist_ok=True)
+        elif fn.endswith((".diff", ".rs", ".md", ".sh", ".txt")):
+            shutil.copy(src, os.path.join(dest, fn))
     meta = {"id": name, "property": prop, "confirmed": {}, "checks": {}, "at": time.strftime("%Y-%m-%dT%H:%M:%S")}
-    demo = [f for f in os.listdir(os.path.join(wt, "tests")) if f.startswith("seeded_")]
+    demo = [f for f in os.listdir(os.path.join(wt, "tests")) if f.startswith("seeded_") and f.endswith(".rs")]
     demo_name = demo[0][:-3] if demo else None
     ran = []
     if demo_name:
